@@ -59,9 +59,15 @@ def bfs(cfg_ref, alphabet: list[dict], depth: int, jobs: int, seed: int = 0, che
     t0 = time.time()
     st = HState(cfg)
     seen = {st.canon()}
-    st.close()
-    frontier = [[]]
     failures = []
+    try:
+        # the initial state is a state too
+        n0 = len(st.failures)
+        st.observe(checks)
+        failures = [f for f in st.failures[n0:] if not rules or any(f.rule.startswith(r) for r in rules)]
+    finally:
+        st.close()
+    frontier = [[]]
     per_level = []
     transitions = 0
     caps = []
